@@ -58,6 +58,8 @@ class Module:
         with warnings.catch_warnings():
             warnings.simplefilter('ignore')
             self.tree = ast.parse(src, filename=path)
+        from .normalize import normalise
+        self.tree = normalise(self.tree)
         self.digest = hashlib.sha256(src.encode()).hexdigest()[:16]
         self.bindings = {}          # own top-level bindings: name -> Binding (last wins)
         self.stars = []             # dotted module names star-imported
@@ -573,6 +575,12 @@ class Program:
         return Target('unresolved', None, None)
 
     # ------------------------------------------------------------------ lookup helpers
+    def function_of_node(self, node):
+        m = getattr(self, '_by_node', None)
+        if m is None:
+            m = self._by_node = {id(f.node): f for f in self.functions.values()}
+        return m.get(id(node))
+
     def func(self, key):
         f = self.functions.get(key)
         if f is None:
